@@ -391,3 +391,110 @@ def _uses_rng_attr(fi, ci):
         if isinstance(n, ast.Call) and isinstance(n.func, ast.Attribute) and n.func.attr in DRAW_METHODS:
             return True
     return False
+
+
+# ------------------------------------------------------------------------------------------- S5
+def _rng_kind(proj, fi, recv):
+    """'np' / 'py' / None for the receiver expression of a draw."""
+    m = fi.module
+
+    def kind_of_value(v):
+        if isinstance(v, ast.Call):
+            r = resolve_callee(proj, m, v)
+            q = r.qual if r.kind in ('func', 'external') else ''
+            if q.endswith('get_numpy_rng') or q in ('numpy.random.default_rng', 'numpy.random.Generator'):
+                return 'np'
+            if q.endswith('get_random_rng') or q == 'random.Random':
+                return 'py'
+        return None
+    if isinstance(recv, ast.Name):
+        from ..dataflow import assignments
+        ks = {kind_of_value(v) for v, st, p in assignments(fi.node).get(recv.id, []) if p is None}
+        ks.discard(None)
+        if len(ks) == 1:
+            return ks.pop()
+        if recv.id == 'np_rng' and not ks:
+            return 'np'
+        return None
+    if isinstance(recv, ast.Attribute) and isinstance(recv.value, ast.Name) and recv.value.id == 'self' and fi.cls is not None:
+        init = fi.cls.methods.get('__init__')
+        if init is not None:
+            ks = set()
+            for n in ast.walk(init.node):
+                if isinstance(n, ast.Assign):
+                    for t in n.targets:
+                        if isinstance(t, ast.Attribute) and isinstance(t.value, ast.Name) and t.value.id == 'self' and t.attr == recv.attr:
+                            ks.add(kind_of_value(n.value))
+            ks.discard(None)
+            if len(ks) == 1:
+                return ks.pop()
+    return None
+
+
+def _offset_from(expr, base_dump):
+    """expr == base + c  ->  c (int) ; else None."""
+    if ast.dump(expr) == base_dump:
+        return 0
+    if isinstance(expr, ast.BinOp) and isinstance(expr.op, (ast.Add, ast.Sub)) and ast.dump(expr.left) == base_dump \
+            and isinstance(expr.right, ast.Constant) and isinstance(expr.right.value, int):
+        return expr.right.value if isinstance(expr.op, ast.Add) else -expr.right.value
+    return None
+
+
+def s5(proj, rep, modules=None):
+    rep.rule('S5', RULES['S5'])
+    n = 0
+    from ..dataflow import comp_binding
+    for fi in proj.iter_functions(modules):
+        m = fi.module
+        for c in ast.walk(fi.node):
+            if not (isinstance(c, ast.Call) and isinstance(c.func, ast.Attribute) and c.func.attr in ('integers', 'randint', 'randrange')):
+                continue
+            kind = _rng_kind(proj, fi, c.func.value)
+            if kind is None:
+                continue
+            args = list(c.args)
+            lo = args[0] if len(args) >= 2 else None
+            hi = args[1] if len(args) >= 2 else (args[0] if args else None)
+            for k in c.keywords:
+                if k.arg == 'high':
+                    hi = k.value
+                if k.arg == 'low':
+                    lo = k.value
+            if hi is None or not (lo is None or (isinstance(lo, ast.Constant) and lo.value == 0)):
+                continue
+            inclusive = (kind == 'py' and c.func.attr == 'randint') or any(k.arg == 'endpoint' and isinstance(k.value, ast.Constant) and k.value.value for k in c.keywords)
+            want = -1 if inclusive else 0
+            # (i) index into container
+            p = getattr(c, '_parent', None)
+            if isinstance(p, ast.Subscript) and p.slice is c:
+                base = ast.Call(func=ast.Name(id='len', ctx=ast.Load()), args=[p.value], keywords=[])
+                off = _offset_from(hi, ast.dump(base))
+                if off is not None:
+                    n += 1
+                    what = f'{ast.unparse(c)} indexes {ast.unparse(p.value)}'
+                    if off == want:
+                        rep.ok('S5', fi.qual, f'{what}: bound matches the {"inclusive" if inclusive else "exclusive"} convention', m, c)
+                    elif off > want:
+                        rep.violation('S5', fi.qual, f'{what}: upper bound len+({off}) with an {"inclusive" if inclusive else "exclusive"} '
+                                      f'draw can return len(...) -> IndexError', m, c)
+                    else:
+                        rep.violation('S5', fi.qual, f'{what}: upper bound len+({off}) with an {"inclusive" if inclusive else "exclusive"} '
+                                      f'draw never selects the last element(s)', m, c)
+                continue
+            # (ii) mixed-radix digit: bound is the comprehension variable (+c)
+            for nm in [x for x in ast.walk(hi) if isinstance(x, ast.Name)]:
+                g = comp_binding(nm)
+                if g is not None and isinstance(g.target, ast.Name):
+                    off = _offset_from(hi, ast.dump(ast.Name(id=g.target.id, ctx=ast.Load())))
+                    if off is not None:
+                        n += 1
+                        what = f'{ast.unparse(c)} for {g.target.id} in {ast.unparse(g.iter)}'
+                        if off == want:
+                            rep.ok('S5', fi.qual, f'{what}: digit range [0,{g.target.id}-1]', m, c)
+                        else:
+                            rep.violation('S5', fi.qual, f'{what}: with an {"inclusive" if inclusive else "exclusive"} draw the digit '
+                                          f'ranges over [0,{g.target.id}{off - want - 1:+d}] instead of [0,{g.target.id}-1]', m, c)
+                    break
+    rep.count('S5.sites', n)
+    return n
